@@ -659,4 +659,105 @@ theorem inv_deleteTable {m : Meta} {P : Seg → Prop} (h : Inv m P) (hinj : KeyI
         · simp only [hn, if_false]; exact hI.tbl n s
     · exact hI
 
+/-! ### stream ids: decimal rendering is injective and dash-free, the id string parses uniquely -/
+
+def digitVal (c : Char) : Nat :=
+  if c = '0' then 0 else if c = '1' then 1 else if c = '2' then 2 else if c = '3' then 3 else if c = '4' then 4
+  else if c = '5' then 5 else if c = '6' then 6 else if c = '7' then 7 else if c = '8' then 8 else 9
+
+def valOf (l : List Char) : Nat := l.foldl (fun acc c => acc * 10 + digitVal c) 0
+
+theorem digitVal_digitChar : ∀ d, d < 10 → digitVal (digitChar d) = d := by decide
+
+theorem digitChar_ne_dash (d : Nat) : digitChar d ≠ '-' := by
+  unfold digitChar
+  split <;> decide
+
+theorem valOf_snoc (l : List Char) (c : Char) : valOf (l ++ [c]) = valOf l * 10 + digitVal c := by
+  simp [valOf, List.foldl_append]
+
+theorem valOf_decNat (n : Nat) : valOf (decNat n) = n := by
+  induction n using Nat.strongRecOn with
+  | _ n ih =>
+    rw [decNat]
+    split
+    · next h => simp [valOf, digitVal_digitChar n h]
+    · next h =>
+      rw [valOf_snoc, ih (n / 10) (by omega), digitVal_digitChar (n % 10) (by omega)]
+      omega
+
+theorem decNat_injective {a b : Nat} (h : decNat a = decNat b) : a = b := by
+  have := congrArg valOf h
+  simpa [valOf_decNat] using this
+
+theorem decNat_no_dash (n : Nat) : ∀ c ∈ decNat n, c ≠ '-' := by
+  induction n using Nat.strongRecOn with
+  | _ n ih =>
+    rw [decNat]
+    split
+    · intro c hc; simp at hc; subst hc; exact digitChar_ne_dash n
+    · intro c hc
+      simp only [List.mem_append, List.mem_singleton] at hc
+      rcases hc with hc | rfl
+      · exact ih (n / 10) (by omega) c hc
+      · exact digitChar_ne_dash _
+
+theorem decNat_ne_nil (n : Nat) : decNat n ≠ [] := by
+  rw [decNat]; split <;> simp
+
+theorem decInt_injective {a b : Int} (h : decInt a = decInt b) : a = b := by
+  unfold decInt at h
+  by_cases ha : a < 0 <;> by_cases hb : b < 0
+  · simp only [ha, hb, if_true, List.cons.injEq, true_and] at h
+    have := decNat_injective h
+    omega
+  · simp only [ha, hb, if_true, if_false] at h
+    have hm : '-' ∈ decNat b.toNat := by rw [← h]; simp
+    exact absurd rfl (decNat_no_dash _ _ hm)
+  · simp only [ha, hb, if_true, if_false] at h
+    have hm : '-' ∈ decNat a.toNat := by rw [h]; simp
+    exact absurd rfl (decNat_no_dash _ _ hm)
+  · simp only [ha, hb, if_false] at h
+    have := decNat_injective h
+    omega
+
+/-- a string is cut uniquely at its FIRST dash -/
+theorem first_dash_unique : ∀ (A A' X X' : List Char), (∀ c ∈ A, c ≠ '-') → (∀ c ∈ A', c ≠ '-') →
+    A ++ '-' :: X = A' ++ '-' :: X' → A = A' ∧ X = X' := by
+  intro A
+  induction A with
+  | nil =>
+    intro A' X X' _ hA' h
+    cases A' with
+    | nil => simpa using h
+    | cons a r =>
+      simp only [List.nil_append, List.cons_append, List.cons.injEq] at h
+      exact absurd h.1.symm (hA' a (by simp))
+  | cons a r ih =>
+    intro A' X X' hA hA' h
+    cases A' with
+    | nil =>
+      simp only [List.nil_append, List.cons_append, List.cons.injEq] at h
+      exact absurd h.1 (hA a (by simp))
+    | cons a' r' =>
+      simp only [List.cons_append, List.cons.injEq] at h
+      have := ih r' X X' (fun c hc => hA c (by simp [hc])) (fun c hc => hA' c (by simp [hc])) h.2
+      exact ⟨by rw [h.1, this.1], this.2⟩
+
+/-- … and at its LAST dash -/
+theorem last_dash_unique (B B' C C' : List Char) (hC : ∀ c ∈ C, c ≠ '-') (hC' : ∀ c ∈ C', c ≠ '-')
+    (h : B ++ '-' :: C = B' ++ '-' :: C') : B = B' ∧ C = C' := by
+  have hr := congrArg List.reverse h
+  simp only [List.reverse_append, List.reverse_cons, List.append_assoc, List.singleton_append] at hr
+  have := first_dash_unique C.reverse C'.reverse B.reverse B'.reverse
+    (fun c hc => hC c (by simpa using hc)) (fun c hc => hC' c (by simpa using hc)) hr
+  exact ⟨List.reverse_inj.1 this.2, List.reverse_inj.1 this.1⟩
+
+theorem streamId_parse (H : Name → Nat) (s s' : Nat) (o o' : Org) (i i' : Name)
+    (h : streamId H s o i = streamId H s' o' i') : s = s' ∧ o = o' ∧ H i = H i' := by
+  unfold streamId at h
+  have h1 := first_dash_unique _ _ _ _ (decNat_no_dash s) (decNat_no_dash s') h
+  have h2 := last_dash_unique _ _ _ _ (decNat_no_dash (H i)) (decNat_no_dash (H i')) h1.2
+  exact ⟨decNat_injective h1.1, decInt_injective h2.1, decNat_injective h2.2⟩
+
 end SigModel.Lemmas.C13
